@@ -1728,7 +1728,7 @@ func runCase(o *outT, idx int, seed uint64) (rspec *caseSpec, rwant []string) {
 	for k := 0; k < 3; k++ {
 		genJ(o, r, 2000+k, false)
 	}
-	if idx%8 == 5 {
+	if idx%16 == 5 {
 		genJ(o, r, 2003, true)
 	}
 	return &cs, want
